@@ -126,9 +126,10 @@ func (f c03flow) accepts(t c03txn, request bool) (ok bool, und bool, reason stri
 		if f.query != "" {
 			// reference semantics: the key must be present in the query string (even
 			// with an empty value); a required value must equal its first value
-			qv, perr := url.ParseQuery(t.query)
+			// (a neighbouring pair that cannot be decoded takes nothing away from it)
+			qv, _ := url.ParseQuery(t.query)
 			vals, present := qv["q"]
-			if perr != nil || !present || (f.query != "*" && vals[0] != f.query) {
+			if !present || (f.query != "*" && vals[0] != f.query) {
 				return false, false, "query"
 			}
 			if f.query == "*" && vals[0] != "" {
@@ -266,7 +267,7 @@ func runC03(s *kernel.Sim) {
 	var txns []c03txn
 	for i := 0; i < nTxn; i++ {
 		t := c03txn{method: []string{"GET", "POST", "PUT"}[tp.Choose(3)], header: []string{"", "v1", "v2", "v3"}[tp.Choose(4)],
-			query: []string{"", "q=1", "q=2", "q", "q=", "x=1&q=", "x=1"}[tp.Choose(7)], status: []int{200, 500, 404}[tp.Choose(3)]}
+			query: []string{"", "q=1", "q=2", "q", "q=", "x=1&q=", "x=1", "q=1&d=100%", "n=a;b&q=1"}[tp.Choose(9)], status: []int{200, 500, 404}[tp.Choose(3)]}
 		if tp.Chance(3, 4) {
 			f := flows[tp.Choose(len(flows))]
 			t.host = f.host
